@@ -432,6 +432,16 @@ def run_chain(case, ctx, P):
         out_before = outputs(c, batches) if P == "C04" else None
         bufs_before = {k: v.detach().clone() for k, v in c.named_buffers()} if P == "C04" else None
         bare = name.split(".")[-1]
+        # -- optionally a REJECTED call first: an unknown keyword makes Python refuse the call before the method body runs, so
+        #    on a healthy tree the object is untouched and the real mutation below must behave as if nothing had happened
+        if step.get("probe"):
+            try:
+                getattr(c, name)(**dict(kwargs, vp_no_such_argument=1))
+                ctx.label("rejected-call-probe:accepted?!")
+            except TypeError:
+                ctx.label("rejected-call-probe")
+            except Exception as e:
+                ctx.label(f"rejected-call-probe:{type(e).__name__}")
         # -- the mutation --------------------------------------------------------------------------
         np.random.seed(step.get("seed", 0))
         torch.manual_seed(step.get("seed", 0))
@@ -708,7 +718,9 @@ def cfg_strategy(draw, family=None):
     elif fam in ("cnn2d", "cnn3d"):
         size = draw(st.sampled_from([8, 16, 20]))
         kw = _cnn_kw(draw, tight, size)
-        kw.update(input_shape=[draw(st.integers(1, 3)), size, size], num_outputs=draw(st.integers(1, 4)), activation=act,
+        # square, landscape and portrait images (kernel limits depend on the SMALLER side of the feature map)
+        hw = draw(st.sampled_from([[size, size], [size, size], [size, 2 * size + 4], [2 * size + 4, size], [8, 40], [40, 8]]))
+        kw.update(input_shape=[draw(st.integers(1, 3))] + hw, num_outputs=draw(st.integers(1, 4)), activation=act,
                   layer_norm=draw(st.booleans()), init_layers=draw(st.booleans()), output_activation=draw(st.sampled_from([None, "ReLU"])))
         cfg = {"kind": fam, "kw": kw}
         if fam == "cnn3d":
@@ -778,7 +790,8 @@ def _net_cfg(draw, name, tight, act):
             kw["encoder_config"] = enc
     elif obs_t == "image":
         size = draw(st.sampled_from([8, 16]))
-        cfg["obs"] = {"type": "image", "shape": [draw(st.integers(1, 3)), size, size]}
+        hw = draw(st.sampled_from([[size, size], [size, size], [size, 2 * size + 4], [2 * size + 4, size], [8, 40], [40, 8]]))
+        cfg["obs"] = {"type": "image", "shape": [draw(st.integers(1, 3))] + hw}
         use_resnet = name not in ("RainbowQNetwork",) and draw(st.integers(0, 4)) == 0
         n_agents = (not use_resnet) and draw(st.integers(0, 3)) == 0
         if use_resnet:
@@ -857,7 +870,8 @@ def step_strategy(draw):
         hl, n, k = draw(st.integers(0, 3)), draw(st.integers(0, 3)), draw(st.integers(0, 8))
     else:
         hl, n, k = draw(st.none() | st.integers(0, 3)), draw(st.none() | st.integers(0, 3)), draw(st.none() | st.integers(0, 8))
-    return {"m": draw(st.integers(0, 47)), "hl": hl, "n": n, "k": k, "seed": draw(st.integers(0, 9999))}
+    return {"m": draw(st.integers(0, 47)), "hl": hl, "n": n, "k": k, "seed": draw(st.integers(0, 9999)),
+            "probe": draw(st.integers(0, 4)) == 0}
 
 
 def walk_strategy(max_steps_quick=10, max_steps_thorough=40, family=None):
